@@ -302,7 +302,7 @@ func (w *o43World) countFaults(p *o43Plan, failed bool) {
 	case "panic":
 		w.sim.Fault("handler-panic")
 		return
-	case "nilresult":
+	case "nilresult", "wrongstate":
 		w.sim.Fault("handler-nil-result")
 		return
 	}
